@@ -13,18 +13,40 @@ type effSet struct {
 	keys  map[string]bool
 	fresh map[string]bool // keys written only inside objects allocated by the function itself
 	why   string
+	except map[string]bool // with all: keys known not to be written (from preserves clauses)
+}
+
+// addAllExcept: the function may write everything except the given keys.
+func (a *effSet) addAllExcept(except map[string]bool, why string) {
+	if a.all {
+		// intersect
+		if a.except != nil {
+			for k := range a.except {
+				if !except[k] {
+					delete(a.except, k)
+				}
+			}
+		}
+		return
+	}
+	a.all = true
+	a.why = why
+	a.except = map[string]bool{}
+	for k := range except {
+		if !a.keys[k] {
+			a.except[k] = true
+		}
+	}
 }
 
 func (a *effSet) add(b *effSet) {
 	if b.all {
-		if !a.all {
-			a.all = true
-			a.why = b.why
-		}
+		a.addAllExcept(b.except, b.why)
 		return
 	}
 	for k := range b.keys {
 		a.keys[k] = true
+		delete(a.except, k)
 	}
 	for k := range b.fresh {
 		if a.fresh == nil {
@@ -72,11 +94,15 @@ func (e *Engine) effects(fn *ssa.Function) *effSet {
 
 func (e *Engine) effectsOnce(fn *ssa.Function, res *effSet) {
 	so := e.effSo
+	if con := e.contractFor(fn); con != nil && con.HasPreserves {
+		res.addAllExcept(e.preservedKeys(con), "preserves clause of "+con.Key)
+		return
+	}
 	if con := e.contractFor(fn); con != nil && con.HasAssigns {
 		for _, a := range con.Assigns {
 			for _, k := range e.resolveAssign(con, a, nil) {
 				if k == "*" {
-					res.all = true
+					res.setAll()
 					res.why = "assigns *"
 				} else {
 					res.keys[k] = true
@@ -93,7 +119,7 @@ func (e *Engine) effectsOnce(fn *ssa.Function, res *effSet) {
 				return
 			}
 		}
-		res.all = true
+		res.setAll()
 		res.why = "no body: " + name
 		return
 	}
@@ -242,7 +268,7 @@ func (e *Engine) callEffect(c *ssa.CallCommon, res *effSet) {
 			for _, a := range con.Assigns {
 				for _, k := range e.resolveAssign(con, a, nil) {
 					if k == "*" {
-						res.all = true
+						res.setAll()
 						res.why = "assigns * of " + key
 					} else {
 						res.keys[k] = true
@@ -251,7 +277,7 @@ func (e *Engine) callEffect(c *ssa.CallCommon, res *effSet) {
 			}
 			return
 		}
-		res.all = true
+		res.setAll()
 		res.why = "dynamic call " + key
 		return
 	}
@@ -295,7 +321,7 @@ func (e *Engine) callEffect(c *ssa.CallCommon, res *effSet) {
 			for _, a := range con.Assigns {
 				for _, k := range e.resolveAssign(con, a, nil) {
 					if k == "*" {
-						res.all = true
+						res.setAll()
 					} else {
 						res.keys[k] = true
 					}
@@ -304,7 +330,7 @@ func (e *Engine) callEffect(c *ssa.CallCommon, res *effSet) {
 			return
 		}
 	}
-	res.all = true
+	res.setAll()
 	res.why = "call of function value"
 }
 
@@ -354,7 +380,7 @@ func (e *Engine) stdlibEffects(fn *ssa.Function, res *effSet) {
 				reach(u.Field(i).Type(), true)
 			}
 		case *types.Interface, *types.Signature:
-			res.all = true
+			res.setAll()
 			res.why = "stdlib call " + name + " with interface/func argument"
 		case *types.Array:
 			reach(u.Elem(), true)
